@@ -410,12 +410,16 @@ func c01Check(c *mc.Ctx, k c01Case, doMem, doStreamW, doStreamR bool) {
 				return
 			}
 			// appending writer: onto nil and onto a prefix with spare capacity
-			for _, pre := range [][]byte{nil, append(make([]byte, 0, 64), 0xAA, 0xBB)} {
+			exact := append(make([]byte, 0, 2+len(want)), 0xAA, 0xBB)             // exactly enough spare capacity
+			short := append(make([]byte, 0, 1+len(want)), 0xAA, 0xBB)             // one byte short (forces a reallocation only if need > 0)
+			mid := append(make([]byte, 0, 32), bytes.Repeat([]byte{0xAB}, 20)...) // len 20 cap 32
+			for _, pre := range [][]byte{nil, append(make([]byte, 0, 64), 0xAA, 0xBB), exact, short, mid} {
 				ab := pre
+				keepPre := append([]byte{}, pre...)
 				for _, v := range vals {
 					ab = cvAppend(ab, v)
 				}
-				if !bytes.Equal(ab[:len(pre)], pre) || !bytes.Equal(ab[len(pre):], want) {
+				if !bytes.Equal(ab[:len(pre)], keepPre) || !bytes.Equal(ab[len(pre):], want) {
 					bad("append-bytes", "appending writer (prefix of %d bytes) produced %s, want prefix + %s", len(pre), mc.Hex(ab), mc.Hex(want))
 					failed = true
 					return
